@@ -601,12 +601,18 @@ def update_wrapper(wrapper, func, injected=None, expected=None, build_from=None,
     for arg, default in expected_items:
         fb.add_arg(arg, default)  # may raise ExistingArgument
 
-    if fb.is_async:
-        fb.body = 'return await _call(%s)' % fb.get_invocation_str()
-    else:
-        fb.body = 'return _call(%s)' % fb.get_invocation_str()
+    # the name the wrapper goes by inside the new function must not be
+    # shadowed by an argument or by the function's own name
+    call_name = '_call'
+    while call_name in fb.get_arg_names() + (fb.varargs, fb.varkw, fb.name):
+        call_name = '_' + call_name
 
-    execdict = dict(_call=wrapper, _func=func)
+    if fb.is_async:
+        fb.body = f'return await {call_name}({fb.get_invocation_str()})'
+    else:
+        fb.body = f'return {call_name}({fb.get_invocation_str()})'
+
+    execdict = {call_name: wrapper, '_func': func}
     fully_wrapped = fb.get_func(execdict, with_dict=update_dict)
 
     if hide_wrapped and hasattr(fully_wrapped, '__wrapped__'):
